@@ -222,6 +222,22 @@ VlogAssignInit == VlogInit \o <<
                [op |-> "set_lower", kind |-> "C", x |-> 5, ival |-> 2],
                \* the same literal constant in two modules: 1'b0 on pin i of l (in mid) and on pin b of m (in top)
                Ccreate("DC", 3, "\\<const0>", 1), Cconnect(8, OPin(2, 1)), Cconnect(16, OPin(3, 5)) >>
+(* header-aliased ports: port a of mid is left for the build steps, which tie its bits to bits of the nets n, k (and b): *)
+(* .a(n), .a({n[0], n[1]}), .a({k, n[1]}), .a({k, k}) ... with the nets carrying the direction declaration             *)
+VlogAliasInit == << Cnew("N", "n"), Ccreate("NL", 1, "work", 0),
+               Ccreate("LD", 1, "leaf", 0), Ccreate("LD", 1, "mid", 0), Ccreate("LD", 1, "top", 0),
+               Ccreate("DP", 1, "i", 1), Ccreate("DP", 1, "o", 1), Ccreate("DC", 1, "i", 1), Ccreate("DC", 1, "o", 1),
+               Ccreate("DP", 2, "b", 1), Ccreate("DP", 2, "a", 2), Ccreate("DC", 2, "b", 1), Ccreate("DC", 2, "n", 2),
+               Ccreate("DC", 2, "k", 1), Ccreate("DC", 2, "j[0]", 1),
+               Ccreate("DP", 3, "t", 2), Ccreate("DP", 3, "u", 1), Ccreate("DC", 3, "t", 2), Ccreate("DC", 3, "u", 1),
+               [op |-> "set_dir", x |-> 1, ival |-> 2], [op |-> "set_dir", x |-> 2, ival |-> 3],
+               [op |-> "set_dir", x |-> 3, ival |-> 3], [op |-> "set_dir", x |-> 4, ival |-> 2],
+               [op |-> "set_dir", x |-> 5, ival |-> 2], [op |-> "set_dir", x |-> 6, ival |-> 3],
+               Cconnect(1, IPin(1)), Cconnect(2, IPin(2)), Cconnect(3, IPin(3)),
+               Cconnect(8, IPin(6)), Cconnect(9, IPin(7)), Cconnect(10, IPin(8)),
+               Csettopdef(1, 3), [op |-> "set_name", kind |-> "I", x |-> 1, val |-> "top"],
+               Cchild(2, "l", 1), Cchild(3, "m", 2),
+               Cconnect(8, OPin(3, 4)), Cconnect(9, OPin(3, 5)), Cconnect(10, OPin(3, 3)) >>
 VlogOpts == [order : {"asis", "reversed"}, ansi : BOOLEAN, positional : BOOLEAN, concat : BOOLEAN,
              escaped : BOOLEAN, comments : BOOLEAN, celldefine : BOOLEAN, grouped : BOOLEAN, escmod : BOOLEAN,
              undeclared : BOOLEAN, concatparts : BOOLEAN]
@@ -481,6 +497,8 @@ ScopeTable ==
     vlog_rt |-> VlogScope({"vlog_rt"}),
     vlog_assign |-> [VlogScope({"vlog_read", "vlog_rt"}) EXCEPT !.init = VlogAssignInit, !.ops = {"b:connect", "set_k:C"},
                        !.max = [N |-> 1, L |-> 2, D |-> 5, P |-> 10, C |-> 11, I |-> 5, Q |-> 14, W |-> 16]],
+    vlog_alias |-> [VlogScope({"vlog_read", "vlog_rt"}) EXCEPT !.init = VlogAliasInit, !.ops = {"b:connect"}, !.parents = {2},
+                      !.max = [N |-> 1, L |-> 1, D |-> 3, P |-> 6, C |-> 8, I |-> 3, Q |-> 8, W |-> 10]],
     vlog_decl |-> [VlogScope({"vlog_read", "vlog_rt", "vlog_all"}) EXCEPT !.init = VlogDeclInit, !.ops = {}, !.parents = {}],
     \* ... plus a cell nothing instantiates: it must survive a write-then-read step (outside C06's single-root domain)
     vlog_unused |-> [VlogScope({"vlog_rt"}) EXCEPT
